@@ -74,6 +74,8 @@ def run(tier):
         sql = sqlgen.render(st)
         exp = sqlgen.expected(st)
         for d in ds:
+            if not common.is_core_for(d, exp["tags"]):
+                continue
             cases.append({"sql": sql, "dialect": d, "want": []})
             meta.append((key, st, exp))
     run_.need("pair_sets_compared")
